@@ -243,6 +243,7 @@ package keeper
 // C07 (a consensus address that is in the active validator set stays resolvable and slashable until its unbonding has
 // ended): the removal is completed at once only if NEITHER the key being removed NOR a key the operator replaced earlier
 // in this epoch (which is then still validating) is in the active validator set.
+//@   before[C07.aokri.prevchain]  GetOperatorPrevConsKeyForChainID requires arg2 == operator && arg3 == chainID
 //@   before[C07.aokri.prevactive] CompleteOperatorKeyRemovalForChainID requires defined(res_GetOperatorPrevConsKeyForChainID_0) &&
 //@        (res_GetOperatorPrevConsKeyForChainID_0 ==> !res_GetExocoreValidator_1)
 
@@ -267,3 +268,10 @@ package keeper
 //@   ensures[C16.gooofe.absent] res_Get_0 == nil ==> result == -1
 //@   ensures[C16.gooofe.stored] res_Get_0 != nil && be2u64(res_Get_0) < 9223372036854775808 ==> result == be2u64(res_Get_0)
 //@   ensures[C16.gooofe.read]   state(ctx) == old(state(ctx))
+
+// C06 (the stored total power is the sum of the powers of the stored validator set): the total handed in is always
+// written - also zero, when the whole set has left.
+//@ func (Keeper).SetLastTotalPower
+//@   flag pure=LastTotalPowerKey
+//@   modifies store(ctx, "dogfood")
+//@   ensures[C06.sltp.always] defined(res_MustMarshal_0) && defined(res_LastTotalPowerKey_0) && get(ctx, "dogfood", res_LastTotalPowerKey_0) == res_MustMarshal_0
